@@ -10,6 +10,7 @@ import SynapModel.Drv.Rng
 import SynapModel.Drv.Layer
 import SynapModel.Drv.Conv
 import SynapModel.Drv.Stab
+import SynapModel.Drv.ModuleFwd
 /-!
 # `synapdrv` : line-protocol interpreter of the model
 
@@ -24,6 +25,7 @@ structure State where
   bn : Drv.Layers.St := {}
   t : Drv.Tensor.St := {}
   tr : Drv.Train.St := {}
+  mf : Drv.ModuleFwd.St := {}
 
 def step (st : State) (line : String) : State × String :=
   let toks := (line.trimAscii.toString.splitOn " ").filter (· ≠ "")
@@ -40,6 +42,7 @@ def step (st : State) (line : String) : State × String :=
   | "layer" :: rest => (st, Drv.Layer.run rest)
   | "conv" :: rest => (st, Drv.Conv.run rest)
   | "stab" :: rest => (st, Drv.Stab.run rest)
+  | "mf" :: rest => let (w, o) := Drv.ModuleFwd.run st.mf rest; ({ st with mf := w }, o)
   | "reset" :: _ => ({}, "ok")
   | _ => (st, "bad-op")
 
